@@ -34,6 +34,9 @@ CHECKS = {
     "C21": dict(level="proof", technique=PROOF_TECH, design="DESIGN.md §5 C21",
                 text="SQLCompiler._truncated_identifier (length <= label_length, memo idempotent, earlier names keep their rendering, counters only grow), IdentifierPreparer._truncate_and_render_maxlen_name (length <= max_) and truncate_and_render_index/constraint_name (the kind-specific limit applies when the dialect defines it) are proved for all lengths with strings modelled by length. Bounded complement: naming conventions x dialect families x limits.",
                 note="strings by length only; md5/apply_map pure; preconditions label_length >= 6, max_ >= 8; uniqueness within a statement bounded only"),
+    "C23": dict(level="proof", technique=PROOF_TECH, design="DESIGN.md §5 C23",
+                text="the context-manager protocol of transactions (TransactionalContext.__enter__ / __exit__ / _trans_ctx_check) is proved: entering links the transaction to its subject and remembers the enclosing one; leaving restores the enclosing link and clears its own on all 26 paths (commit, rollback, close, and exceptions out of any of them); using the subject inside a block whose transaction has ended raises. Bounded complement: ghost nested-transaction model after every step of every operation sequence on file-backed SQLite.",
+                note="abstract contracts on the concrete transaction classes' operations; Connection/RootTransaction/NestedTransaction methods bounded only; SQLite stands for a backend"),
     "C24": dict(level="proof", technique=PROOF_TECH, design="DESIGN.md §5 C24",
                 text="the reset path is proved: _ConnectionFairy._reset leaves no open transaction for reset_on_return rollback/commit (or was told, under a call-site precondition, that the transaction is already reset) and DefaultDialect.reset_isolation_level restores the engine-wide level; ghost txn_open / iso_level per DBAPI connection. Bounded complement: all pool histories on a fake DBAPI.",
                 note="assumed driver contracts (do_rollback/do_commit/_assert_and_set_isolation_level); _finalize_fairy, checkin and Connection.close only in the bounded complement; server-side state outside"),
@@ -118,7 +121,7 @@ CHECKS.update({
              "SQLite stands for 'a backend'; the proof kernel planned in DESIGN §5 C31 (UOWTransaction.execute vs declared dependencies) is not built: dependency.py's edge declarations are only exercised, not proved", "DESIGN.md §5 C31"),
     "C20": B("inverse-pair contract make_url(u.render_as_string(hide_password=False)) == u on the real URL functions over ~3e5 URLs (all strings <= 3 of an adversarial alphabet per component, interacting pairs, hosts/ports table). Bounded exploration.",
              "urllib.parse quote/unquote and re are CPython's; canonical query forms only", "DESIGN.md §5 C20"),
-    "C23": B("ghost nested-transaction model evaluated after every step of every operation sequence <= 5 (quick) / 6 (thorough) over 20 Connection/Transaction operations on file-backed SQLite with an independent observer connection. Bounded exploration.",
+    "_C23_bounded_only": B("ghost nested-transaction model evaluated after every step of every operation sequence <= 5 (quick) / 6 (thorough) over 20 Connection/Transaction operations on file-backed SQLite with an independent observer connection. Bounded exploration.",
              "SQLite (autocommit=False mode) stands for 'a backend'; PostgreSQL/MariaDB outside", "DESIGN.md §5 C23"),
     "C27": B("fault enumeration on a fake DBAPI with a ghost ledger: a disconnect / ordinary error injected at every DBAPI call position of every history <= 4 (quick) / 5 (thorough) x 4 handle_error listener modes; contract clauses on Connection._handle_dbapi_exception and the pool checked after every step.",
              "real drivers' is_disconnect classification is outside; fake DBAPI stands for the driver", "DESIGN.md §5 C27", level="fault_enumeration"),
